@@ -131,6 +131,8 @@ impl Scenario for C18Gc {
 							"cyclic-garbage",
 							"standalone-super",
 							"standalone-super",
+							"type-error-on-container",
+							"type-error-on-container",
 							"import-assert",
 							"mutual-recursion",
 							"import-cycle",
